@@ -15,7 +15,16 @@ Steps of a run
      partition of the results are compared exactly
   4. implementation-level oracle (always on): public API x input forms x
      reuse patterns, deep snapshot of every argument before / after the call
-     and after a repeated call, plus repeat-call equality of the results
+     and after a repeated call, plus repeat-call equality of the results;
+     then the documented in-place operations are applied to the RESULTS
+     (arguments(), +=, @=, *=, compress, tidyup, to; tidyup / fill of returned
+     Qobj, arrays, containers) and the original arguments are compared with
+     their snapshots again: a container shared between a result and an
+     argument (element list, feedback table, dict, list, data buffer) shows up
+     there.  Solver-level entry points (steadystate all methods,
+     pseudo_inverse, propagator, correlation, spectrum, floquet, brmesolve,
+     krylovsolve, heomsolve, channel representations) are driven with
+     Dense / CSR / Dia operands, as H + c_ops and as a ready-made Liouvillian
 """
 import json
 import os
@@ -1531,7 +1540,8 @@ def _run(ctx):
         "QobjEvo/Qobj operations run in the model and on real objects (compared: set of modified "
         "initial operands, alias partition of the final variables), non-trivial when it contains an "
         "in-place operation; oracle: a scenario is (API call, input form, storage type, memory "
-        "order, reuse pattern); distinct by name")
+        "order, reuse pattern), followed by the documented in-place operations on its results; "
+        "distinct by name")
     ctx.cov["trusted_base"] += [
         "tools/tx_c04_alias.py: the translated subset is the model of the function bodies; branch "
         "and loop conditions are not interpreted (all paths); attributes of one object = fields of "
